@@ -1,8 +1,8 @@
 """C19: lookup-table approximations match the functions they tabulate (partly decided).
 
 Decided: every table literal against a rigorous oracle; array extents; for sin/cos_angle_aprox and every int32 d
-the loaded index is congruent to d modulo 360 and inside the table; sqrt_aprox(0)==0, NaN below 0;
-atan_index_aprox result range.  Not decided: sqrt_aprox 2 %, atan_index_aprox 1.25 (numeric; DESIGN section 6)."""
+the loaded index is congruent to d modulo 360 and inside the table; sqrt_aprox(0)==0, NaN below 0; atan_index_aprox result range;
+sqrt_aprox 2 % and atan_index_aprox 1.25 by exhaustive partition into constant-result cells."""
 from fractions import Fraction
 from . import common, lib, realmath as R
 from .lib import M, FIN, ANYFX, sym
@@ -171,6 +171,7 @@ def run(tier, seed):
     V = common.Verdict("C19", tier, seed)
     configs = ["K17", "K20"] if tier == "quick" else ["K17", "K20"]
     nlit = 0
+    cells = {}
     for cfg in configs:
         try:
             ctx = lib.Ctx(cfg, [])
@@ -188,6 +189,7 @@ def run(tier, seed):
             r = ctx.run("w_atan_index_aprox", [FIN])
             lib.check_regions(V, r, [("all", [], ("range", -128 * 65536, 128 * 65536))], lambda a, o: o[0] != "ret" or abs(o[1]) > 128 * 65536,
                               "atan_index_aprox result within [-128,128]", site="atan_index_aprox")
+            cells[cfg] = {"sqrt_aprox_constant_cells": sqrt_aprox_cells(V, ctx, seed), "atan_index_constant_paths": atan_index_cells(V, ctx, seed)}
         except Broken as e:
             V.broke("%s: %s" % (cfg, e))
     if nlit < 1233 * len(configs):
@@ -198,6 +200,106 @@ def run(tier, seed):
             "65536*sqrt(i/256+31/2^18); array extents 361/361/256/256; sin_angle_aprox/cos_angle_aprox for EVERY int32 d: the result is the "
             "value-numbered load table[i] with i congruent to d modulo 360 and 0 <= i <= 360 on all paths (hence within 2 ulp of sin/cos(d deg) "
             "by periodicity); sqrt_aprox(0)==0, NaN for x<0, result >= 0, table index in bounds; atan_index_aprox within [-128,128] and all "
-            "binary-search probes in bounds. NOT DECIDED (numeric over 2^37 / 2^47 inputs, DESIGN section 6): sqrt_aprox's 2 % relative error, "
-            "atan_index_aprox's 1.25 bound.")
-    return V.finish("other", expl, "./fx check C19 --tier %s" % tier, extra={"configs": configs, "literals_checked": nlit, "exhaustive": True})
+            "binary-search probes in bounds. sqrt_aprox 2 %: the domain 2^-16 <= x < 2^21 is partitioned into the ~3000 cells (bit-length "
+            "class x table index) on which the analyser returns one constant R; per cell 0.98*256*sqrt(b) <= R <= 1.02*256*sqrt(a) is an "
+            "exact integer comparison of squares, and a failing end point is itself a concrete counter-example. atan_index_aprox 1.25: each "
+            "of the 513 binary-search paths returns one constant on an interval of arguments; atan is monotone, so the bound is decided at "
+            "the two end points with the interval oracle. Every clause of C19 is decided.")
+    return V.finish("other", expl, "./fx check C19 --tier %s" % tier, extra={"configs": configs, "literals_checked": nlit, "exhaustive": True, "cells": cells})
+
+
+# ------------------------------------------------------------------ numeric clauses decided cell by cell
+def sqrt_aprox_cells(V, ctx, seed):
+    """sqrt_aprox relative error <= 2 % for 2^-16 <= x < 2^21: the domain is partitioned into the cells on which the
+    result is one constant (bit-length class x table index); per cell the bound is an exact rational comparison."""
+    from fxai import pipeline as P
+    r = ctx.run("w_sqrt_aprox", [("i", 1, (1 << 37) - 1)])
+    an = r.an
+    gname = TABLES["sqrt"][0]
+    ncell = 0
+    bad = None
+    for p in r.paths:
+        st = p.state
+        lo, hi = st.bounds["p0"]
+        loads = [n for n in st.notes if n[0] == "load" and n[1] == gname]
+        if len(loads) != 1:
+            V.inconc("w_sqrt_aprox: %d table loads on a path" % len(loads))
+            continue
+        idx = loads[0][2]
+        ilo, ihi = st.rng_lin_int(idx)
+        # idx = (raw - lowbits) / 2^cl : the denominator of the index form is the shift
+        step = idx.d
+        if set(idx.t) - {"p0"} and not all(isinstance(k, str) for k in idx.t):
+            pass
+        for i in range(ilo, ihi + 1):
+            a = max(lo, i * step)
+            b = min(hi, i * step + step - 1)
+            if a > b:
+                continue
+            rs = an.run(P.init_state(an.fn, [("i", a, b)]))
+            vals = set(lib.ret_rng(q) for q in rs.paths)
+            if len(vals) != 1 or next(iter(vals))[0] != next(iter(vals))[1] or rs.alarms:
+                V.oblige(False)
+                V.inconc("w_sqrt_aprox: result is not a single constant on the cell raw in [%d,%d] (index %d)" % (a, b, i))
+                continue
+            R = next(iter(vals))[0]
+            ncell += 1
+            # 0.98*256*sqrt(b) <= R <= 1.02*256*sqrt(a)   <=>   R^2 * 2500 >= 2401 * 65536 * b   and   R^2 * 2500 <= 2601 * 65536 * a
+            ok_lo = R >= 0 and R * R * 2500 >= 2401 * 65536 * b
+            ok_hi = R * R * 2500 <= 2601 * 65536 * a
+            V.oblige(ok_lo and ok_hi)
+            if not (ok_lo and ok_hi) and bad is None:
+                raw = b if not ok_lo else a
+                bad = (raw, R, i, (a, b))
+            if ncell in (1, 500, 2500) and len(V.samples) < 14:
+                V.sample({"function": "sqrt_aprox", "cell_raw": [a, b], "table_index": i, "result_raw": R, "within_2_percent": ok_lo and ok_hi})
+    if bad is not None:
+        raw, R, i, cell = bad
+        import math
+        V.violation("sqrt_aprox relative error <= 2%", "sqrt_aprox", "sqrt_aprox(raw %d) [%s] = raw %d on the whole cell %s (table index %d) but 256*sqrt(raw) = %.1f: "
+                    "relative error %.2f%%" % (raw, ctx.config, R, cell, i, 256 * math.sqrt(raw), 100 * abs(R - 256 * math.sqrt(raw)) / (256 * math.sqrt(raw))),
+                    lib.rp(r, (raw,), "relative error <= 2%"))
+    if ncell < 1200:
+        V.broke("sqrt_aprox: only %d constant cells (expected about 1500)" % ncell)
+    return ncell
+
+
+def atan_index_cells(V, ctx, seed):
+    """atan_index_aprox within 1.25 of atan(x)*128/pi for |x| < 2^31: each path of the binary search returns one constant
+    on an interval of arguments; atan is monotone, so the bound is checked at the two end points with the interval oracle."""
+    T47 = (1 << 47) - 1
+    r = ctx.run("w_atan_index_aprox", [("i", -T47, T47)])
+    pi = R.pi()
+    n = 0
+    for p in r.paths:
+        lo, hi = p.state.bounds["p0"]
+        rl, rh = lib.ret_rng(p)
+        if rl != rh:
+            V.oblige(False)
+            V.inconc("w_atan_index_aprox: non-constant result on a path %s" % lib.describe_path(p))
+            continue
+        n += 1
+        for raw in (lo, hi):
+            if raw == 0:
+                t = (0, 0)
+            else:
+                t = R.atan_iv(R.iv(Fraction(raw, 65536)))
+            true_idx = R.div(R.scale_int(t, 128), pi)          # atan(x)*128/pi
+            got = R.iv(Fraction(rl, 65536))
+            d = R.sub(got, true_idx)
+            worst = max(abs(d[0]), abs(d[1]))
+            best = 0 if d[0] <= 0 <= d[1] else min(abs(d[0]), abs(d[1]))
+            lim = R.iv(Fraction(5, 4))
+            if worst <= lim[0]:
+                V.oblige(True)
+            elif best > lim[1]:
+                V.oblige(False)
+                V.violation("atan_index_aprox within 1.25 of atan(x)*128/pi", "atan_index_aprox",
+                            "atan_index_aprox(raw %d) [%s] = %.4f but atan(x)*128/pi = %.4f" % (
+                                raw, ctx.config, rl / 65536.0, float(R.to_frac(true_idx)[0])), lib.rp(r, (raw,), "within 1.25"))
+            else:
+                V.oblige(False)
+                V.inconc("atan_index_aprox(raw %d): error within 2^-200 of the bound" % raw)
+    if n < 400:
+        V.broke("atan_index_aprox: only %d constant paths" % n)
+    return n
